@@ -46,8 +46,15 @@ class LexRecorder:
               'ev': [], 'exc': '', 'plain': False, 'region': {'lo': 0, 'hi': 0, 'ty': ''}}
         # 1. the real entry point
         real = None
+        cap = len(text) + 64          # a lossless lexer never emits more characters than it was given
         try:
-            real = [(str(tt), v) for tt, v in lexer.tokenize(text)]
+            real = []
+            total = 0
+            for tt, v in lexer.tokenize(text):
+                real.append((str(tt), v))
+                total += len(v)
+                if total > cap or len(real) > cap:
+                    break             # runaway (duplication): the truncated trace already fails the tiling clauses
         except Exception as e:  # noqa
             tr['exc'] = type(e).__name__
         # 2. instrumented instance of the same class
@@ -83,6 +90,8 @@ class LexRecorder:
                     ev['val'] = cps(v)
                     evs.append(ev)
                     inst.append((str(tt), v))
+                    if len(inst) >= len(real):
+                        break
             except Exception:
                 inst = None
         if real is not None and inst == real:
@@ -141,3 +150,34 @@ def opener_mixes(maxn=3):
     for n in range(1, maxn + 1):
         for t in itertools.product(OPENERS, repeat=n):
             yield ''.join(t)
+
+
+NOTABLE = [0x0, 0x1, 0x7f, 0x85, 0xa0, 0xad, 0x200b, 0x200e, 0x2028, 0x2029, 0x202e, 0x2060, 0xfeff, 0xfffd, 0xfffe, 0xffff,
+           0xd800, 0xdbff, 0xdc00, 0xdfff, 0xe000, 0x10000, 0x1f600, 0xe0001, 0x10ffff, 0x1680, 0x3000, 0x0300, 0x0660, 0x2160, 0xff21]
+
+
+def notable_inputs():
+    """texts with a notable code point (BOM, zero-width, separators, surrogates, non-characters, ...) at the
+    start, in the middle and at the end of ordinary statements"""
+    bases = ['select 1', "select 'a' from t; select 2", '']
+    out = []
+    for cp in NOTABLE:
+        c = chr(cp)
+        for b in bases:
+            out += [c + b, b + c, b[:3] + c + b[3:], c + c + b, c + ';' + b]
+    return out
+
+
+def long_token_inputs():
+    """one very long token per text (thresholds around powers of two)"""
+    out = []
+    for n in (100, 1000, 4095, 4096, 4097, 5000, 20000):
+        out.append("select '" + 'x' * n + "' from t")
+        out.append('select 1 /* ' + 'c' * n + ' */ from t')
+        out.append('select $$' + 'd;' * (n // 2) + '$$, 2')
+        out.append('select ' + 'n' * n + ' from t')
+        out.append('select "' + 'q' * n + '", 1')
+        out.append('select 1 -- ' + 'l' * n + '\nfrom t')
+        out.append('select ' + '9' * n)
+        out.append('select' + ' ' * n + '1')
+    return out
